@@ -14,7 +14,15 @@ def build():
     units = [(os.path.join(VERIF, "harness/C29/h29.cpp"), flags), (os.path.join(VERIF, "sim/vsim.cpp"), flags),
              (os.path.join(REPO, "src/System/ThreadPool.cxx"), flags), (os.path.join(REPO, "src/System/ThreadedTaskResult.cxx"), flags)]
     objs = compile_objects(out, units)
-    return {"asan": link(os.path.join(out, "h29"), objs, SAN + ["-rdynamic", "-ldl", "-lpthread"])}
+    res = {"asan": link(os.path.join(out, "h29"), objs, SAN + ["-rdynamic", "-ldl", "-lpthread"])}
+    # race variant: the same sources compiled with -fsanitize=thread but linked against the simulator's own implementation of
+    # the __tsan_* entry points (sim/vsim.cpp -DVSIM_RACE, a shared object): every plain memory access of ThreadPool.cxx /
+    # ThreadPool.ixx is checked for a happens-before order, independently of the TFEL_VERIF annotations
+    rflags = ["-O1", "-g", "-fsanitize=thread", "-DVSIM_RACE"] + REPO_INC + tfel_inc()
+    so = build_vsim_race(out)
+    robjs = compile_objects(os.path.join(out, "race"), [(u[0], rflags) for u in units if not u[0].endswith("vsim.cpp")])
+    res["race"] = link(os.path.join(out, "h29_race"), robjs, ["-rdynamic", so, "-Wl,-rpath," + os.path.dirname(so), "-ldl", "-lpthread"])
+    return res
 
 
 def signature(rec):
@@ -27,7 +35,7 @@ def signature(rec):
 def main():
     args = parse_args(PID)
     spec = dict(
-        pid=PID, level="exploration", binaries=build(), runs={"quick": 24000, "thorough": 200000}, thorough_budget_s=900,
+        pid=PID, level="exploration", binaries=build(), runs={"quick": 24000, "thorough": 200000}, variant_runs={"race": 6000} if args.tier == "quick" else {}, thorough_budget_s=900,
         signature=signature, param_min=[1, 1, 0],
         nontrivial=lambda r: r.get("ctr", {}).get("context_switches", 0) >= 3 and r.get("events", 0) >= 8,
         rule="one run = one seeded workload (workers, client threads, addTask/wait/yield ops, task flavours, planned spurious wake-ups) under one seeded schedule; "
